@@ -13,6 +13,7 @@ func init() {
 	register("C16", &propInfo{
 		run: func(c *Ctx) {
 			ruleZ1(c)
+			ruleZ1close(c)
 			ruleZ2(c)
 			ruleZ3(c)
 			ruleZ4(c)
@@ -161,6 +162,46 @@ func ruleZ1(c *Ctx) {
 				}
 				_ = stT
 				c.ok("Z1", key, pos, okF, what, fmt.Sprintf("bare receive on %s with the stub lock held and nothing that guarantees a sender or a close: when the runtime drops the connection at this point, Start (and with it Stop and the close notification) blocks forever", a))
+			}
+		}
+	}
+}
+
+// ruleZ1close: the close notification signals first. The waits that Z1 accepts rely on the on-close
+// callback closing its channel; the callback runs while Start may be holding the stub lock and waiting
+// on exactly that channel, so nothing that needs the stub lock may come before the close.
+func ruleZ1close(c *Ctx) {
+	m := c.M
+	la := allLocks(c)
+	acq, callees := la.mayAcquire()
+	for _, f := range m.funcsInPkg(pkgStub) {
+		for _, mc := range onCloseClosures(m, f) {
+			fn := mc.Fn.(*ssa.Function)
+			for _, ci := range calls(fn) {
+				call, ok := ci.(*ssa.Call)
+				if !ok {
+					continue
+				}
+				if bi, ok := call.Call.Value.(*ssa.Builtin); !ok || bi.Name() != "close" {
+					continue
+				}
+				bad := ""
+				for _, other := range calls(fn) {
+					if other == ci || !instrCanReach(other, call) {
+						continue
+					}
+					if op := la.lockOpOf(other.Common()); op != nil && op.Acquire && op.ID.Name == "stub.Mutex" {
+						bad = c.pos(other.Pos())
+					}
+					gs, _ := callees(other)
+					for _, g := range gs {
+						if acq[g]["stub.Mutex"] {
+							bad = fmt.Sprintf("%s (%s takes the stub lock)", c.pos(other.Pos()), funcKey(g))
+						}
+					}
+				}
+				c.ok("Z1", funcKey(f)+"/on-close/signals-first", call.Pos(), bad == "", "the close notification closes its channel before doing anything that needs the stub lock",
+					"the callback can block on the stub lock at "+bad+" before it closes the channel: Start holds that lock while it waits for exactly this channel, so a connection lost during Start deadlocks it (and Stop, and the notification)")
 			}
 		}
 	}
@@ -514,10 +555,8 @@ func ruleZ5(c *Ctx) {
 			if u, ok := in.(*ssa.UnOp); ok && u.Op == token.ARROW {
 				for _, cd := range controls(b) {
 					cd = normCond(cd)
-					if call, ok := cd.V.(*ssa.Call); ok && cd.Pol {
-						if g := m.callee(call.Common()); g != nil && strings.EqualFold(g.Name(), "isstarted") {
-							okW = true
-						}
+					if cd.Pol && readsStarted(m, cd.V, 0) {
+						okW = true
 					}
 				}
 			}
@@ -532,10 +571,8 @@ func ruleZ5(c *Ctx) {
 		if iff == nil {
 			continue
 		}
-		if call, ok := iff.Cond.(*ssa.Call); ok {
-			if g := m.callee(call.Common()); g != nil && strings.EqualFold(g.Name(), "isstarted") {
-				test = iff
-			}
+		if readsStarted(m, iff.Cond, 0) {
+			test = iff
 		}
 	}
 	bad := ""
@@ -565,6 +602,38 @@ func ruleZ5(c *Ctx) {
 		}
 	}
 	c.ok("Z5", "Start", st.Pos(), bad == "", "Start refuses a stub that is already started before touching session state", bad)
+}
+
+// readsStarted: v is the stub's started flag, read directly or through a method that returns it.
+func readsStarted(m *Module, v ssa.Value, depth int) bool {
+	if depth > 3 {
+		return false
+	}
+	if call, ok := v.(*ssa.Call); ok {
+		g := m.callee(call.Common())
+		if g == nil || len(g.Blocks) == 0 || g.Pkg == nil || g.Pkg.Pkg.Path() != pkgStub || g.Signature.Results().Len() != 1 {
+			return false
+		}
+		rets := returnsOf(g)
+		for _, r := range rets {
+			for _, rv := range returnValues(r, 0) {
+				if !readsStarted(m, rv, depth+1) {
+					return false
+				}
+			}
+		}
+		return len(rets) > 0
+	}
+	a := m.ap(v)
+	return a.PathString() == "started" && a.Root != nil && recvIsStub(m, a.Root)
+}
+
+func recvIsStub(m *Module, v ssa.Value) bool {
+	t := v.Type()
+	if p, ok := t.Underlying().(*types.Pointer); ok {
+		t = p.Elem()
+	}
+	return types.Identical(t, m.named(pkgStub, "stub"))
 }
 
 // ruleZ6: session state is only touched under the stub lock.
@@ -628,7 +697,7 @@ func ruleZ7(c *Ctx) {
 	for _, f := range m.funcsInPkg(pkgStub) {
 		for _, fs := range m.fieldStores(f, stT, "started") {
 			if isConstBool(fs.Store.Val, false) {
-				c.ok("Z7", "cleared-by/"+funcKey(f), fs.Store.Pos(), f.Name() == "close", "only close() marks the stub not started", funcKey(f)+" clears the started flag")
+				c.ok("Z7", "cleared-by/"+funcKey(f), fs.Store.Pos(), f == m.method(pkgStub, "stub", "close"), "only close() marks the stub not started", funcKey(f)+" clears the started flag")
 			}
 		}
 	}
